@@ -166,6 +166,18 @@ def r8_2(ctx, rc):
                                 rc.ok({'region': key}, key=key)
 
 
+def r8_2b(ctx, rc):
+    """The whole-subtree repeat test and registration visit every complex
+    suboperation of a reused record."""
+    from .apply_rules import subtree_walk_rule
+    C = ctx.R.cache
+    for name in ('_assert_no_repeats', '_use_cached_operation'):
+        F = ctx.E.func(C + '.' + name)
+        subtree_walk_rule(
+            ctx, rc, F, lambda x, F=F: Q.is_call(x, F.qualname),
+            'recursing into it', 'subtree-walk')
+
+
 def _builder_graph(ctx, fname):
     R = ctx.R
     F = R.builder_f(fname)
@@ -416,6 +428,8 @@ def r8_6(ctx, rc):
 RULES = [
     ('R8.1', 'lockset on the claim maps', r8_1),
     ('R8.2', 'check-and-claim is one critical section', r8_2),
+    ('R8.2b', 'subtree repeat test and registration visit every record',
+     r8_2b),
     ('R8.3', 'claim precedes run, reuse registers, claim is finished', r8_3),
     ('R8.4', 'replay refuses keys already taken', r8_4),
     ('R8.5', 'setup failures are never registered or reused', r8_5),
